@@ -1475,7 +1475,7 @@ discrete measure positions and a nested list of N x 1D weights.
 
 Note this function does not return a product measure, it returns a list."""
   total = []
-  if weights is None or not (len(weights) if hasattr(weights, '__len__') else weights): weights = _uniform_weights(samples)
+  if weights is None or not (len(weights) if hasattr(weights, '__len__') and getattr(weights, 'ndim', 1) else weights): weights = _uniform_weights(samples)
   for i in range(len(samples)):
     next = measure()
     for j in range(len(samples[i])):
@@ -1488,7 +1488,7 @@ def compose(samples, weights=None):
   """Generate a product_measure object from a nested list of N x 1D
 discrete measure positions and a nested list of N x 1D weights. If weights
 are not provided, a uniform distribution with norm = 1.0 will be used."""
-  if weights is None or not (len(weights) if hasattr(weights, '__len__') else weights): weights = _uniform_weights(samples)
+  if weights is None or not (len(weights) if hasattr(weights, '__len__') and getattr(weights, 'ndim', 1) else weights): weights = _uniform_weights(samples)
   total = _list_of_measures(samples, weights)
   c = product_measure(total)
   return c
